@@ -67,6 +67,12 @@ FAMILIES = [
     "rt_nested",        # <rt><rt>…</rt>t</rt>t                   nested string-container tags, trailing text
     "unclosed",         # <a><b><b>…x</a>            markup only: one end tag closes n open tags (`_popToTag`)
     "unclosed_eof",     # <a><a><a>…x                markup only: nothing is closed before the end of input (`_feed`)
+    # markup only: nested whitespace-preserving / string-container tags around deep look-alike content (popTag's == on the
+    # side stacks while PARSING): (<X> CHAIN(n)) * 3 + </X> * 3 — when the middle X closes it has as many children as
+    # the outer one, and an identical deep leading child
+    "nest3_pre", "nest3_textarea", "nest3_rt", "nest3_rp", "nest3_template",
+    # markup only: <X>t<X>t<X>t…</X></X></X> — n nested X, each starting with the same text
+    "nestlead_pre", "nestlead_textarea", "nestlead_rt", "nestlead_template",
     "twins",            # <a> <a><a>…x…</a></a> <a><a>…x…</a></a> </a>   two identical deep chains side by side
     "builderless",      # Tag(name="a") nested by hand (known_xml is None), trailing text
 ]
@@ -157,6 +163,23 @@ def family_events(fam: str, n: int):
         for k in range(n):
             c()
             t("t")
+    elif fam.startswith("nest3_"):
+        x = fam.split("_", 1)[1]
+        for j in range(3):
+            o(x, {}, None)
+            for k in range(n):
+                o("b", {}, k if j == 0 else None)
+            for k in range(n):
+                c()
+        for j in range(3):
+            c()
+    elif fam.startswith("nestlead_"):
+        x = fam.split("_", 1)[1]
+        for k in range(n):
+            o(x, {}, k)
+            t("t")
+        for k in range(n):
+            c()
     elif fam == "unclosed":
         o("a", {}, 0)
         for k in range(1, n):
@@ -194,7 +217,7 @@ def family_events(fam: str, n: int):
         levels = []
         for k in range(n):
             if prev is None or r.random() < 0.1:
-                prev = (r.choice("ab"), r.choice(("none", "none", "same", "distinct")),
+                prev = (r.choice(("a", "a", "b", "b", "pre", "rt")), r.choice(("none", "none", "same", "distinct")),
                         r.choice(("none", "none", "text", "tag")), r.choice(("none", "text", "text", "tag", "void", "tagtext")))
             else:
                 r.random()
@@ -249,7 +272,7 @@ def events_markup(ev) -> str:
     return "".join(out)
 
 
-NAME_CODE = {"a": 1, "b": 2, "br": 3, "div": 4, "p": 5, "pre": 6, "rt": 7, "n": 8}
+NAME_CODE = {"a": 1, "b": 2, "br": 3, "div": 4, "p": 5, "pre": 6, "rt": 7, "n": 8, "textarea": 9, "rp": 10, "template": 11}
 ATTR_CODE = {}
 
 
@@ -280,7 +303,7 @@ def events_tokens(ev, builderless: bool) -> str:
 # --------------------------------------------------------------------------------------
 class H:
     """handles into one built tree"""
-    __slots__ = ("soup", "root", "top", "mid", "inner", "levels", "elems", "markup", "n", "extra")
+    __slots__ = ("soup", "root", "top", "mid", "inner", "levels", "elems", "markup", "n", "extra", "args")
 
 
 def _bs():
@@ -518,6 +541,99 @@ def _parse_bytes(h):
     return BeautifulSoup(h.markup.encode("utf8"), "html.parser")
 
 
+class InvariantBroken(Exception):
+    pass
+
+
+def _parse_invariant(h):
+    """Runtime oracle of the invariant `depth_bounded_parse` rests on (Proofs/Depth.lean `Inv`): after every pushTag /
+    popTag, preserve_whitespace_tag_stack and string_container_stack are exactly the open tags (tagStack) whose name is
+    in the builder's preserve_whitespace_tags / string_containers — the same objects, in the same order."""
+    from bs4 import BeautifulSoup
+
+    def check(soup):
+        b = soup.builder
+        for side, names in ((soup.preserve_whitespace_tag_stack, b.preserve_whitespace_tags),
+                            (soup.string_container_stack, b.string_containers)):
+            want = [t for t in soup.tagStack if t.name in names]
+            if len(side) != len(want) or any(x is not y for x, y in zip(side, want)):
+                raise InvariantBroken("C11-invariant: side stack %r is not the tag stack filtered by name %r (open tags: %s)"
+                                     % ([t.name for t in side], [t.name for t in want], len(soup.tagStack)))
+
+    class Checked(BeautifulSoup):
+        def pushTag(self, tag):
+            r = BeautifulSoup.pushTag(self, tag)
+            check(self)
+            return r
+
+        def popTag(self):
+            r = BeautifulSoup.popTag(self)
+            check(self)
+            return r
+    return Checked(h.markup, "html.parser")
+
+
+def _position(parent, child):
+    i = 0
+    for k in parent.contents:
+        if k is child:
+            return i
+        i += 1
+    raise ValueError("harness: child not found")
+
+
+def _near_copy(h, level: int, mark="!"):
+    """copy.copy of the chain-level tag `level` with one change at the very bottom: a string appended to the copy of the
+    innermost chain tag (found by following the same child positions as in the original — a loop)."""
+    import copy
+    el = h.levels[level]
+    path = [_position(h.levels[k - 1], h.levels[k]) for k in range(level + 1, len(h.levels))]
+    c = copy.copy(el)
+    h.extra.append(c)
+    t = c
+    for j in path:
+        t = t.contents[j]
+    if mark is not None:
+        t.append(mark)
+    return c
+
+
+def _prep_ab(h):
+    m = len(h.levels) // 2
+    h.args = {"A": _near_copy(h, m, "!"), "B": _near_copy(h, m, "?")}
+
+
+def _prep_a(h):
+    h.args = {"A": _near_copy(h, len(h.levels) // 2, "!")}
+
+
+def _prep_exact(h):
+    h.args = {"A": _near_copy(h, len(h.levels) // 2, None)}
+
+
+def _prep_top(h):
+    h.args = {"A": _near_copy(h, 0, "!")}
+
+
+def _prep_parent(h):
+    h.args = {"A": _near_copy(h, max(len(h.levels) // 2 - 1, 0), "!")}
+
+
+def _prep_twins(h):
+    """the receiver between two near copies of itself: [… A, mid, B …, "p", "q"]"""
+    _prep_ab(h)
+    h.args["parent"] = h.mid.parent
+    h.mid.parent.append("p")           # two adjacent strings: smooth() always finds work
+    h.mid.parent.append("q")
+    h.mid.insert_before(h.args["A"])
+    h.mid.insert_after(h.args["B"])
+
+
+def _prep_after_parentcopy(h):
+    _prep_parent(h)
+    h.mid.insert_after(h.args["A"])
+
+
 import re as _re
 _RX = _re.compile("^zz")
 
@@ -526,6 +642,7 @@ OPS = {
     "parse": ("markup", _parse),
     "parse_bytes": ("markup", _parse_bytes),
     "parse_strainer": ("markup", _strainer_parse),
+    "parse_invariant": ("markup", _parse_invariant),
     # render
     "decode": ("tree", lambda h: h.top.decode()),
     "decode_html": ("tree", lambda h: h.top.decode(formatter="html")),
@@ -626,6 +743,48 @@ OPS = {
     "doc_smooth": ("doc", lambda h: h.soup.smooth()),
     "string_setter_mid": ("tree", lambda h: setattr(h.mid, "string", "new")),
     "string_setter_inner": ("tree", lambda h: setattr(h.inner, "string", "new")),
+    # editing calls whose ARGUMENT is a near copy of the receiver (copy.copy + one change at the very bottom): wherever the
+    # code compares two elements it must do so by identity — a structural == / != / in / list.index would walk both
+    # subtrees in lock-step
+    "nc_replace_with": ("tree", lambda h: h.mid.replace_with(h.args["A"]), _prep_a),
+    "nc_replace_with_exact": ("tree", lambda h: h.mid.replace_with(h.args["A"]), _prep_exact),
+    "nc_replace_with_top": ("tree", lambda h: h.top.replace_with(h.args["A"]), _prep_top),
+    "nc_replace_with_two": ("tree", lambda h: h.mid.replace_with(h.args["A"], h.args["B"]), _prep_ab),
+    "nc_replace_with_parentcopy": ("tree", lambda h: h.mid.replace_with(h.args["A"]), _prep_parent),
+    "nc_insert_before": ("tree", lambda h: h.mid.insert_before(h.args["A"], h.args["B"]), _prep_ab),
+    "nc_insert_before_exact": ("tree", lambda h: h.mid.insert_before(h.args["A"]), _prep_exact),
+    "nc_insert_after": ("tree", lambda h: h.mid.insert_after(h.args["A"], h.args["B"]), _prep_ab),
+    "nc_append_to_parent": ("tree", lambda h: h.mid.parent.append(h.args["A"]), _prep_a),
+    "nc_append_into_self": ("tree", lambda h: h.mid.append(h.args["A"]), _prep_a),
+    "nc_append_child_of_copy": ("tree", lambda h: h.mid.append(h.args["A"].contents[0]), _prep_a),
+    "nc_insert0_parent": ("tree", lambda h: h.mid.parent.insert(0, h.args["A"]), _prep_a),
+    "nc_insert_two": ("tree", lambda h: h.mid.parent.insert(1, h.args["A"], h.args["B"]), _prep_ab),
+    "nc_extend": ("tree", lambda h: h.mid.parent.extend([h.args["A"], h.args["B"]]), _prep_ab),
+    "nc_wrap_in_copy": ("tree", lambda h: h.mid.wrap(h.args["A"]), _prep_a),
+    "nc_extract_before_parentcopy": ("tree", lambda h: h.mid.extract(), _prep_after_parentcopy),
+    # the receiver BETWEEN two near copies of itself (its previous and next sibling)
+    "tw_index": ("tree", lambda h: h.args["parent"].index(h.mid), _prep_twins),
+    "tw_index_last": ("tree", lambda h: h.args["parent"].index(h.args["B"]), _prep_twins),
+    "tw_extract": ("tree", lambda h: h.mid.extract(), _prep_twins),
+    "tw_extract_last": ("tree", lambda h: h.args["B"].extract(), _prep_twins),
+    "tw_replace_with": ("tree", lambda h: h.mid.replace_with("s"), _prep_twins),
+    "tw_replace_with_sibling": ("tree", lambda h: h.mid.replace_with(h.args["B"]), _prep_twins),
+    "tw_insert_before": ("tree", lambda h: h.mid.insert_before("s"), _prep_twins),
+    "tw_insert_after": ("tree", lambda h: h.mid.insert_after("s", h.args["A"]), _prep_twins),
+    "tw_unwrap": ("tree", lambda h: h.mid.unwrap(), _prep_twins),
+    "tw_wrap": ("tree", lambda h: h.mid.wrap(_new_tag(h)), _prep_twins),
+    "tw_decompose": ("tree", lambda h: h.mid.decompose(), _prep_twins),
+    "tw_move_first_to_end": ("tree", lambda h: h.args["parent"].append(h.args["A"]), _prep_twins),
+    "tw_insert_existing": ("tree", lambda h: h.args["parent"].insert(0, h.args["B"]), _prep_twins),
+    "tw_clear": ("tree", lambda h: h.args["parent"].clear(), _prep_twins),
+    "tw_string_setter": ("tree", lambda h: setattr(h.args["parent"], "string", "s"), _prep_twins),
+    "tw_smooth": ("tree", lambda h: h.args["parent"].smooth(), _prep_twins),
+    "tw_decode": ("tree", lambda h: h.mid.decode(), _prep_twins),
+    "tw_decode_parent": ("tree", lambda h: h.args["parent"].prettify(), _prep_twins),
+    "tw_get_text": ("tree", lambda h: h.mid.get_text(), _prep_twins),
+    "tw_find_all": ("tree", lambda h: h.mid.find_all(h.mid.name), _prep_twins),
+    "tw_find_next_siblings": ("tree", lambda h: h.mid.find_next_siblings(h.mid.name), _prep_twins),
+    "tw_copy_parent": ("tree", lambda h: __import__("copy").copy(h.args["parent"]), _prep_twins),
     # small protocol methods
     "len_bool_iter": ("tree", lambda h: (len(h.top), bool(h.top), _consume(iter(h.top)))),
     "contains_str": ("tree", lambda h: "zzz" in h.top),
@@ -650,6 +809,8 @@ LINKED_OPS = {"doc_pickle_insert0", "doc_pickle_copy"}
 def receiver(op: str) -> str:
     if OPS[op][0] in ("markup", "doc") or op == "insert0_root":
         return "root"
+    if op.startswith(("nc_", "tw_")):
+        return "top" if op == "nc_replace_with_top" else "mid"
     return "mid" if op in MID_OPS else "inner" if op in INNER_OPS else "top"
 
 
@@ -657,7 +818,8 @@ MARKUP_OPS = [k for k, v in OPS.items() if v[0] == "markup"]
 DOC_OPS = [k for k, v in OPS.items() if v[0] == "doc"]
 
 
-MARKUP_ONLY = ("unclosed", "unclosed_eof")
+MARKUP_ONLY = ("unclosed", "unclosed_eof", "nest3_pre", "nest3_textarea", "nest3_rt", "nest3_rp", "nest3_template",
+               "nestlead_pre", "nestlead_textarea", "nestlead_rt", "nestlead_template")
 
 
 def applicable(op: str, fam: str, build: str) -> bool:
@@ -667,6 +829,9 @@ def applicable(op: str, fam: str, build: str) -> bool:
     if fam == "builderless":
         if build != "raw" or kind in ("markup", "doc"):
             return False
+        if op.startswith(("nc_", "tw_")):
+            # a copy of a builder-less subtree costs O(depth) per element (_is_xml walks up): a representative subset only
+            return op in ("nc_replace_with", "nc_append_to_parent", "nc_wrap_in_copy", "tw_extract", "tw_index")
         if op in ("select", "select_one"):
             return True
         return True
@@ -710,17 +875,24 @@ def worker_main():
 
     emit(ev="hello", limit=sys.getrecursionlimit(), bs4=bs4.__file__, py=sys.version.split()[0])
 
-    def build(kind, n):
+    def build0(kind, n, markup_only=False):
         ev = family_events(fam, n)
         if kind == "raw":
             h = build_raw(ev, builderless)
             h.markup = None if builderless else events_markup(ev)
+        elif markup_only:
+            h = H()                      # the parse operations need the markup only
+            h.extra, h.elems, h.root, h.soup = [], [], None, None
+            h.markup = events_markup(ev)
         else:
             h = build_parsed(ev)
         return h
 
     for op, bkind in job["jobs"]:
         fn = OPS[op][1]
+        prep = OPS[op][2] if len(OPS[op]) > 2 else (lambda h: None)
+        build = (lambda k, n, mo=(OPS[op][0] == "markup"): build0(k, n, mo))
+        PREP = "(while preparing the arguments: copy + a change at the bottom)"
         emit(ev="begin", op=op, build=bkind)
         rec = {"ev": "done", "op": op, "build": bkind, "depths": {}, "deep": {}}
         # warm-up on a tiny tree: lazy imports / regex caches make the first call deeper
@@ -728,12 +900,14 @@ def worker_main():
             h = build(bkind, WARM_DEPTH)
             r = None
             try:
+                prep(h)
                 r = fn(h)
             finally:
                 teardown_h(h, r)
             h = build(bkind, WARM_DEPTH)
             r = None
             try:
+                prep(h)
                 w, r = measure(fn, h)
             finally:
                 teardown_h(h, r)
@@ -749,6 +923,8 @@ def worker_main():
             stage = "(while building the tree by parsing)"
             try:
                 h = build(bkind, n)
+                stage = PREP
+                prep(h)
                 stage = ""
                 d, r = measure(fn, h)
                 rec["depths"][str(n)] = d
@@ -767,6 +943,8 @@ def worker_main():
             stage = "(while building the tree by parsing)"
             try:
                 h = build(bkind, n)
+                stage = PREP
+                prep(h)
                 stage = ""
                 r = fn(h)
                 rec["deep"][str(n)] = "ok"
@@ -793,7 +971,8 @@ if __name__ == "__main__" and "--worker" in sys.argv:
 # --------------------------------------------------------------------------------------
 def _jobs_for(fam: str):
     jobs = []
-    for op, (kind, _) in OPS.items():
+    for op, v in OPS.items():
+        kind = v[0]
         if applicable(op, fam, "raw"):
             jobs.append((op, "raw"))
         if kind in ("markup", "doc") and applicable(op, fam, "parsed"):
@@ -807,6 +986,7 @@ def run_worker(repo: str, fam: str, jobs, depths, deep, timeout=1500):
     records, crashes = [], []
     todo = list(jobs)
     hello = None
+    t_start = time.time()
     while todo:
         job = dict(repo=repo, family=fam, jobs=todo, depths=depths, deep=deep)
         env = dict(os.environ)
@@ -843,6 +1023,8 @@ def run_worker(repo: str, fam: str, jobs, depths, deep, timeout=1500):
             crashes.append({"op": begun[0], "build": begun[1], "rc": rc, "stderr": err[-600:]})
             done.add(begun)
         todo = [j for j in todo if tuple(j) not in done]
+    if hello is not None:
+        hello["wall_s"] = round(time.time() - t_start, 1)
     return records, crashes, hello
 
 
@@ -921,7 +1103,8 @@ def run(ctx):
     from .common import REPO
     ctx.rule = ("one case = (operation, shape family, construction) with the operation measured at every depth of the tier and "
                 "run once more beyond the recursion limit; non-trivial = the operation ran (did not reject the shape) at every "
-                "depth. Oracle: call depth grows by <= %d between consecutive depths and no RecursionError beyond the limit; "
+                "depth. Oracle: call depth grows by <= %d between consecutive depths (seeded random shapes, which are not homogeneous: "
+                "total growth <= one frame per 8 levels) and no RecursionError beyond the limit; "
                 "correspondence: measured growth between depths %d and %d = growth of the repaired Lean accounting on the same "
                 "tree (+-%d)" % (GROWTH_MAX, MODEL_D[0], MODEL_D[1], GROWTH_MAX))
     ctx.assumptions = [
@@ -935,16 +1118,25 @@ def run(ctx):
     ]
     depths = [50, 100, 200, 400] + ([800] if ctx.thorough else [])
     deep = [3000] + ([6000] if ctx.thorough else [])
+    deep_all = deep
+
+    def deep_of(fam):
+        # copying a builder-less tree costs O(depth) per element (_is_xml walks up to the root): half the depth, still
+        # well beyond the recursion limit
+        return [x // 2 for x in deep_all] if fam == "builderless" else deep_all
     nrand = ctx.n(3, 10)
     r = ctx.rng("families")
     fams = list(FAMILIES) + ["random:%d:%d" % (ctx.seed, r.randrange(10 ** 6)) for _ in range(nrand)]
     jobs = {fam: _jobs_for(fam) for fam in fams}
     t0 = time.time()
     with ThreadPoolExecutor(max_workers=min(16, len(fams))) as ex:
-        futs = {fam: ex.submit(run_worker, str(REPO), fam, jobs[fam], depths, deep) for fam in fams}
+        # longest first (builder-less copies are quadratic, `repeated` has three times the elements, markup-only families are short)
+        order = sorted(fams, key=lambda f: (0 if f == "builderless" else 1 if f == "repeated" else 3 if f in MARKUP_ONLY else 2))
+        futs = {fam: ex.submit(run_worker, str(REPO), fam, jobs[fam], depths, deep_of(fam)) for fam in order}
         results = {fam: f.result() for fam, f in futs.items()}
     ctx.extra["measure_wall_s"] = round(time.time() - t0, 1)
 
+    ctx.extra["family_wall_s"] = {fam: (h or {}).get("wall_s") for fam, (_, _, h) in results.items()}
     hello = next((h for _, _, h in results.values() if h), None)
     if hello:
         ctx.extra["interpreter"] = {"python": hello["py"], "recursionlimit": hello["limit"], "bs4": hello["bs4"]}
@@ -963,9 +1155,11 @@ def run(ctx):
 
     table = {}
     skipped = {}
+    parse_flagged = {}
     for fam in fams:
         records, crashes, _ = results[fam]
         fam_key = fam.split(":")[0]
+        deep = deep_of(fam)
         for c in crashes:
             ctx.case(None)
             ctx.count("crash")
@@ -977,6 +1171,15 @@ def run(ctx):
             op, build = rec["op"], rec["build"]
             kind = OPS[op][0]
             case = {"operation": op, "family": fam, "build": build, "depths": depths, "deep": deep}
+            if isinstance(rec.get("warm"), str) and "C11-invariant" in rec["warm"]:
+                ctx.case(None)
+                ctx.count("invariant:broken")
+                ctx.corr_disagreements += 1
+                ctx.violation("the invariant the parse bound rests on (side stacks = tag stack filtered by name, Proofs/Depth.lean Inv) "
+                              "does not hold in the running parser", case=case | {"depths": [WARM_DEPTH], "deep": []},
+                              expected="preserve_whitespace_tag_stack / string_container_stack = the open tags with such a name",
+                              observed=rec["warm"], stream="accounting-invariant", no_failing_input=True)
+                continue
             if isinstance(rec.get("warm"), str) and rec["warm"].startswith("error"):
                 skipped.setdefault(op, []).append((fam, rec["warm"]))
                 ctx.count("not-applicable:" + op)
@@ -986,7 +1189,17 @@ def run(ctx):
             dp = [rec["deep"].get(str(n)) for n in deep]
             ints = all(isinstance(x, int) for x in ds)
             growths = [b - a for a, b in zip(ds, ds[1:])] if ints else None
-            ok_growth = ints and all(g <= GROWTH_MAX for g in growths)
+            is_random = fam.startswith("random:")
+            if is_random and ints:
+                # a seeded shape is not homogeneous: the surroundings of the receiver differ from depth to depth, so the
+                # call depth may differ by a shape-dependent CONSTANT (e.g. smooth() finds work or not). Growth with the
+                # nesting is proportional to it: flagged when the total growth exceeds one frame per 8 levels.
+                ok_growth = ds[-1] - ds[0] <= max(GROWTH_MAX, (depths[-1] - depths[0]) // 8)
+                if ok_growth and any(g > GROWTH_MAX for g in growths):
+                    ctx.count("random-family:constant-jitter(not growth)")
+            else:
+                ok_growth = ints and all(g <= GROWTH_MAX for g in growths)
+            tol = (MODEL_D[1] - MODEL_D[0]) // 4 if is_random else GROWTH_MAX
             ok_deep = all(x == "ok" for x in dp)
             table["%s|%s|%s" % (op, fam, build)] = ",".join(map(str, ds)) + ";" + ",".join(map(str, dp))
             observed = {"call_depth": dict(zip(map(str, depths), ds)), "beyond_limit": dict(zip(map(str, deep), dp)),
@@ -1013,8 +1226,20 @@ def run(ctx):
             ctx.count("family:" + fam_key)
             model_info = None if m is None else {"growth_repaired_accounting": m[0], "growth_unrepaired_accounting": m[1],
                                                  "depths": list(MODEL_D)}
+            BUILD = "(while building the tree by parsing)"
+            build_failed = any(isinstance(x, str) and BUILD in x for x in ds + dp)
+            if (not ok_growth or not ok_deep) and build_failed and parse_flagged.get(fam):
+                # the document could not even be parsed: that is the parse operation's violation (already recorded for this
+                # family), not this operation's
+                ctx.count("tree-could-not-be-parsed(see the parse violation of the family)")
+                continue
             if not ok_growth or not ok_deep:
-                what = ("call depth grows with the nesting" if ints and not ok_growth else
+                if kind == "markup":
+                    parse_flagged[fam] = True
+                what = ("the invariant the parse bound rests on (side stacks = tag stack filtered by name) does not hold in the running parser"
+                        if any(isinstance(x, str) and "C11-invariant" in x for x in ds + dp) else
+                        "the PARSE that builds the tree for this operation fails" if build_failed else
+                        "call depth grows with the nesting" if ints and not ok_growth else
                         "RecursionError/failure while measuring" if not ints else "RecursionError beyond the recursion limit")
                 i = depths.index(MODEL_D[0])
                 if m is not None and isinstance(ds[i], int) and isinstance(ds[i + 1], int) and m[1] > GROWTH_MAX:
@@ -1030,7 +1255,7 @@ def run(ctx):
                 continue
             i = depths.index(MODEL_D[0])
             meas = ds[i + 1] - ds[i]
-            if abs(meas - m[0]) <= GROWTH_MAX:
+            if abs(meas - m[0]) <= tol:
                 ctx.count("model:agree")
                 if m[1] > GROWTH_MAX:
                     ctx.count("model:unrepaired-accounting-would-grow")
@@ -1057,7 +1282,7 @@ def run(ctx):
         if never:
             raise RuntimeError("operation(s) never ran on any family (harness defect): %s" % never)
     ctx.exhaustive_parts.append("every operation of the table x every shape family x {hand-linked, parsed} construction at depths %s and beyond the limit %s"
-                                % (depths, deep))
+                                % (depths, deep_all))
 
 
 def replay(path):
@@ -1075,6 +1300,8 @@ def replay(path):
     for rec in records:
         ds = [rec["depths"].get(str(n)) for n in c["depths"]]
         dp = [rec["deep"].get(str(n)) for n in c["deep"]]
+        if isinstance(rec.get("warm"), str):
+            print("warm-up on depth %d: %s" % (WARM_DEPTH, rec["warm"]))
         print("operation %s on family %s (%s): call depth at %s = %s; beyond the limit %s = %s" %
               (c["operation"], c["family"], c["build"], c["depths"], ds, c["deep"], dp))
         if rec.get("tb"):
